@@ -228,6 +228,22 @@ pub fn check_spec(id: &str) -> Option<CheckSpec> {
       assumptions: CACHE_ASSUME.iter().map(|s| s.to_string()).collect(),
       notes: vec![],
     },
+    "C18" => CheckSpec {
+      property: id.into(),
+      level: "exploration",
+      lanes: vec![
+        lane("ioc/instance", crate::ioc::IocFamily { container: crate::ioc::Where::Instance, faults: true, cycles: false }, 100_000, 4_000_000),
+        lane("ioc/global", crate::ioc::IocFamily { container: crate::ioc::Where::Global, faults: true, cycles: false }, 50_000, 2_000_000),
+        lane("ioc/instance/cycles", crate::ioc::IocFamily { container: crate::ioc::Where::Instance, faults: false, cycles: true }, 50_000, 2_000_000),
+        lane("ioc/local", crate::ioc::IocFamily { container: crate::ioc::Where::Local, faults: false, cycles: true }, 30_000, 1_000_000),
+      ],
+      assumptions: vec![
+        "shuttle executes every atomic as SeqCst: a change that only weakens a memory ordering is invisible".into(),
+        "dashmap's map and parking_lot_core are stand-ins (the shard lock and once_cell's OnceCell run their real algorithms)".into(),
+        "bounds: 1-4 threads x <=6 operations over 2-5 keys out of 12 (3 concrete types + 1 trait object x unnamed/'a'/'b')".into(),
+      ],
+      notes: vec![],
+    },
     "C10" => CheckSpec {
       property: id.into(),
       level: "exploration",
@@ -278,6 +294,7 @@ pub fn replay(path: &str) -> i32 {
     "CACHE-CONC" => run_family_replay(cache(|_| {}), &v),
     "CACHE-HIST" => run_family_replay(crate::cache::hist::HistFamily { snapshots: true, faults: true }, &v),
     "CACHE-POLICY" => run_family_replay(crate::cache::policy_seq::PolicyFamily, &v),
+    "IOC" => run_family_replay(crate::ioc::IocFamily { container: crate::ioc::Where::Instance, faults: true, cycles: true }, &v),
     "LOCK" => run_family_replay(LockFamily { faults: true, cancel: true, starve: false }, &v),
     _ => Err(format!("unknown family {fam}")),
   };
